@@ -23,6 +23,7 @@ type cfgRow struct {
 		None    bool   `json:"none"`
 		Sih     bool   `json:"sih"`
 		Size    int64  `json:"size"`
+		Single  bool   `json:"single"`
 	} `json:"cfg"`
 	Ok    bool   `json:"ok"`
 	Dict  string `json:"dict"`
@@ -41,6 +42,10 @@ func dictToken(tok string) int {
 		return 4095
 	case "4096":
 		return 4096
+	case "4097":
+		return 4097
+	case "100000":
+		return 100000
 	case "8MiB":
 		return 8 << 20
 	case "max":
@@ -98,8 +103,11 @@ func configTable(c *hx.Ctx, kind string) {
 				err = w.Verify()
 				gotDict, gotBuf, gotProps = w.DictCap, w.BufSize, w.Properties
 			case "reader":
-				a := xz.ReaderConfig{DictCap: dict}
+				a := xz.ReaderConfig{DictCap: dict, SingleStream: row.Cfg.Single}
 				err = a.Verify()
+				if err == nil && (a.SingleStream != row.Cfg.Single || (dict != 0 && a.DictCap < dict)) {
+					c.Violation(map[string]string{"kind": "config-field-lost", "record": kind}, fmt.Sprintf("xz.ReaderConfig{DictCap: %d, SingleStream: %v}.Verify() left DictCap=%d SingleStream=%v", dict, row.Cfg.Single, a.DictCap, a.SingleStream), map[string]any{"record": kind, "row": row})
+				}
 				b := lzma.Reader2Config{DictCap: dict}
 				e2 := b.Verify()
 				d := lzma.ReaderConfig{DictCap: dict}
@@ -166,7 +174,7 @@ func configTable(c *hx.Ctx, kind string) {
 			// the documented ones (check CRC64; the table's values for the others are what the code
 			// does today and are not asserted).
 			explicitDict := row.Cfg.Dict != "0"
-			badDict := gotDict < 4096 || (explicitDict && gotDict != dictToken(row.Cfg.Dict))
+			badDict := gotDict < 4096 || (explicitDict && gotDict != dictToken(row.Cfg.Dict) && kind != "reader") || (explicitDict && gotDict < dictToken(row.Cfg.Dict))
 			badBuf := kind != "reader" && (gotBuf < 273 || (row.Cfg.Buf != 0 && gotBuf != row.Cfg.Buf))
 			badProps := kind != "reader" && (gotProps == nil || gotProps.LC < 0 || gotProps.LC > 8 || gotProps.LP < 0 || gotProps.LP > 4 || gotProps.PB < 0 || gotProps.PB > 4 ||
 				(props != nil && (gotProps.LC != props.LC || gotProps.LP != props.LP || gotProps.PB != props.PB)))
